@@ -25,6 +25,18 @@ interval length on one side (0 .. length-1, still a prefix/suffix on the same en
 with the two lengths: a CIGAR with insertions/deletions (3M1D, 2M2I1M), `*`, or a trace.  The usable joins keep
 their match-only overlaps (merging through other operations is outside the quantifier), so the chains, the
 spelled sequences and the expected merged lengths are those of the unmodified document.
+GFA1 documents get two more kinds of content (drawn after everything above, so the earlier kinds are all kept):
+  * 30%: _covered_members - usable joins whose overlap is exactly as long as the shorter joined segment (kM, k=,
+    jM(k-j)M with k = min of the two lengths; gen_graph stops at min-1).  This is the boundary of "each successor
+    trimmed by the overlap length": the covered member adds no base of its own, the merged segment still carries the
+    spelled sequence of the chain (every member has one) and the length sum(lengths) - sum(overlaps).
+  * 40%: _walk_paths - 1-3 P lines that are random walks of 2-8 oriented segments over the L lines of the document
+    (both strands, repeated links/segments, across junctions, 2 of 3 started on a chain member), with the overlaps
+    of the walked links or `*`, placed at the end or ahead of the L lines.  A path that walks through a chain is
+    removed by the merge (it mentions a merged member: not checked); the L lines it walks OUTSIDE of the chain do not
+    touch a chain and must be textually unchanged (untouched-line-changed), the outward dovetails of every chain on
+    the path keep their overlaps (outward-dovetails-wrong), and a second chain further along the same path is still
+    spelled with the overlap its join had (merged-sequence-wrong / merged-length-wrong).
 
 Signatures of merge-phase failures carry a domain prefix (vlevel3- / mixedseq- / gfa2-, see oracle()) so that the
 open roots seen on the tree (merge at validation level 3; chains mixing `*` and sequence members; GFA2 edge
@@ -55,7 +67,11 @@ RULE = ("random assembly-like graphs (_graphgen.gen_graph: chains 2-8 with all o
         "cycles, self-links/hairpins on chain ends, parallel edges, containments, internals, GFA1/GFA2, with and "
         "without sequences, overlaps * / kM / k=), <= 10 segments quick, <= 30 thorough; in 60% of the GFA2 documents "
         "the dovetails that are not usable joins get intervals of different length on their two segments with an "
-        "alignment that agrees (CIGAR with I/D, `*`, trace). Non-trivial: the text has at "
+        "alignment that agrees (CIGAR with I/D, `*`, trace); in 30% of the GFA1 documents usable joins get an overlap "
+        "exactly as long as the shorter joined segment (a member entirely covered by its overlap); 40% of the GFA1 "
+        "documents get 1-3 P lines that are random walks (2-8 oriented segments, both strands, repeats, across "
+        "junctions) over the L lines, stating their overlaps or `*`: paths through a chain and beyond it, whose "
+        "other links must come out of the merge unchanged. Non-trivial: the text has at "
         "least one chain or cycle of usable joins; distinct by case hash.")
 CASE_TIMEOUT = 60
 
@@ -479,7 +495,10 @@ def _oracle(case):
                 F.append("merged-sequence-not-placeholder: chain %r has a member without sequence, merged sequence is %r" % (q, m["seq"]))
         elif cuts_known:
             want = seqs[0] + "".join(x[c:] for x, c in zip(seqs[1:], cuts))
-            if m["seq"] != want:
+            if m["seq"] is None:
+                F.append("merged-sequence-wrong: chain %r cuts %r: the merged sequence is `*` although every member "
+                         "has a sequence (%r); expected %r" % (q, cuts, m["line"], want))
+            elif m["seq"] != want:
                 F.append("merged-sequence-wrong: chain %r cuts %r: got %r expected %r" % (q, cuts, m["seq"], want))
         if m["seq"] is not None and m["len"] is not None and m["len"] != len(m["seq"]):
             F.append("merged-length-disagrees-with-sequence: %r" % m["line"])
